@@ -407,6 +407,19 @@ func runB(root, id string, eb *engineB) int {
 	if tier == "thorough" {
 		validate = 101
 	}
+	// bonus levels: once the requested bound of a scenario is complete, the
+	// explorer goes on with bound+1, bound+2 ... until the scenario's share of
+	// the bonus budget is used up. What a bonus level covers is reported
+	// (executions_per_deviation_count, completed_bound); cutting it short is not
+	// a time-out and never affects `exhaustive`, which refers to the requested bound.
+	bonusLevels, bonusBudget := 30, 50.0
+	if tier == "thorough" {
+		bonusLevels, bonusBudget = 30, budget
+	}
+	if v := os.Getenv("VERIF_BONUS_S"); v != "" {
+		fmt.Sscanf(v, "%g", &bonusBudget)
+	}
+	bonusPer := bonusBudget / float64(len(scens))
 	type scenRes struct {
 		info scenInfo
 		st   *explore.Stats
@@ -445,7 +458,8 @@ func runB(root, id string, eb *engineB) int {
 				// test kills the shard (engine error), never the machine
 				cmd := exec.Command("sh", "-c", "ulimit -v 12582912; exec \"$0\" \"$@\"", runner, "-property", id, "-scenario", sc.Name,
 					"-bound", fmt.Sprint(bound), "-shard", fmt.Sprint(s), "-shards", fmt.Sprint(shards),
-					"-deadline", fmt.Sprintf("%.1f", deadline), "-validate", fmt.Sprint(validate))
+					"-deadline", fmt.Sprintf("%.1f", deadline), "-validate", fmt.Sprint(validate),
+					"-bonus", fmt.Sprint(bonusLevels), "-bonus-deadline", fmt.Sprintf("%.2f", bonusPer))
 				cmd.Env = append(env(), "GOMAXPROCS=2")
 				cmd.Stdout, cmd.Stderr = &out, &errb
 				if err := cmd.Run(); err != nil {
@@ -612,7 +626,9 @@ func runB(root, id string, eb *engineB) int {
 		"explanation": "states = executions run (evaluated + re-run by iterative deepening), transitions = scheduler steps of evaluated executions, " +
 			"traces_validated_against_impl = executions replayed a second time from their recorded choice list on the real code with an identical step hash and outcome; " +
 			"exhaustive = every scenario enumerated the finite space named in `rule` (all schedules with at most bound_requested deviations) completely within its deadline - " +
-			"it does not mean all interleavings: a scenario whose whole choice tree was walked says tree_exhausted:true",
+			"it does not mean all interleavings: a scenario whose whole choice tree was walked says tree_exhausted:true; " +
+			"bonus levels: after its requested bound a scenario goes on with bound+1.. until its share of the bonus budget is spent - completed_bound > bound_requested " +
+			"means those further levels were finished too, bonus_level_cut_short means the next one was started and only partly walked (its executions are counted in executions_per_deviation_count)",
 	}
 	assume := append([]string{
 		"code between two synchronisation operations is atomic unless the file is instrumented at statement level (data-race freedom elsewhere)",
